@@ -5,6 +5,12 @@ from vf import envs, episodes, hyp
 from vf.runner import Ctx
 
 
+# environments whose jitted step is cheap get proportionally more episodes (rare-event coverage, e.g. a Snake
+# fruit spawning under the head needs many eaten fruits)
+CHEAP = {"Snake": 4, "Knapsack": 2, "TSP": 2, "CVRP": 2, "Maze": 2, "Game2048": 2, "Minesweeper": 2,
+         "SlidingTilePuzzle": 2, "GraphColoring": 2, "Tetris": 2, "Cleaner": 2}
+
+
 def work_items(env_names, tier, flt, n_quick, n_thorough, cost=None):
     scale = (flt or {}).get("scale", 1.0)
     items = []
@@ -13,6 +19,7 @@ def work_items(env_names, tier, flt, n_quick, n_thorough, cost=None):
             n = n_quick if tier == "quick" else n_thorough
             if isinstance(n, dict):
                 n = n.get(env, n["*"])
+            n = n * CHEAP.get(env, 1)
             items.append({"env": env, "entry": entry, "n": max(1, int(n * scale)),
                           "cost": (cost or {}).get(env, 1.0)})
     return items
